@@ -234,4 +234,46 @@ def EffectsConserve : List Step → Prop
   | .effect f :: rest => (∀ l l', f l = .ok l' → ∀ d, l'.supply d = l.supply d) ∧ EffectsConserve rest
   | _ :: rest => EffectsConserve rest
 
+/-! ### What one element of a sequence prescribes, by its fate (reference)
+
+The per-transaction clauses of the property, as a function of what happened to the element:
+rejected ⇒ nothing; failed ⇒ the base fee (of the configuration of its block) from the paying
+account to the collector, the allowance it used charged the base fee; success ⇒ the declared fee
+distributed, the allowance charged the base fee by the ante handler and the rest of the declared
+fee by the sweep.  The `seq` / `mempool` checkers of the correspondence driver evaluate exactly
+these on the implementation's observed per-block (per-arrival) states. -/
+
+inductive Fate where
+  | ok | failed | rejected
+  deriving DecidableEq, Repr
+
+def Outcome.fate : Outcome → Fate
+  | .ok => .ok
+  | .failed _ => .failed
+  | .rejected _ => .rejected
+
+/-- The fee-related balance change of account `a`, denom `d` one element with fate `f` prescribes. -/
+def fateFeeDelta (cfg : Cfg) (tx : Tx) (f : Fate) (a : Addr) (d : Denom) : Int :=
+  match f with
+  | .rejected => 0
+  | .failed => feeDeltaOnFailure cfg.collector tx.from (baseFee cfg.floor tx.gas) a d
+  | .ok => feeDeltaOnSuccess cfg.collector tx.from tx.fee (stepsIncurred cfg tx.steps) a d
+
+/-- What is left of the allowance the element used (`none`: no such outcome is possible with that
+allowance). -/
+def fateAllow (cfg : Cfg) (tx : Tx) (f : Fate) (a : Allow) : Option Allow :=
+  match f with
+  | .rejected => some a
+  | .failed =>
+    match useGrantedFees a (baseFee cfg.floor tx.gas) with
+    | .ok a1 => some a1
+    | .error _ => none
+  | .ok =>
+    match useGrantedFees a (baseFee cfg.floor tx.gas) with
+    | .error _ => none
+    | .ok a1 =>
+      match useGrantedFees a1 (Coins.sub tx.fee (baseFee cfg.floor tx.gas)) with
+      | .ok a2 => some a2
+      | .error _ => none
+
 end PvModel.Txfee
